@@ -13,7 +13,7 @@ import vlib
 LEVEL = "exploration"
 HERE = os.path.dirname(os.path.abspath(__file__))
 SRC = os.path.join(HERE, "harness.cpp")
-PARTS = list(range(1, 21))
+PARTS = list(range(1, 23))
 PART_DOC = {
     1: "xoptional operators on int", 19: "xoptional operators on double", 2: "xoptional binary operators on Traced<int>",
     17: "xoptional ==,!=,unary,compound on Traced<int>; value_or", 3: "xoptional lifted unary/binary functions on double; abs(int); select<int>",
@@ -22,6 +22,7 @@ PART_DOC = {
     18: "xmasked_value ==,!=,unary,compound on Traced<int>", 8: "xmasked_value lifted unary/binary functions on double; abs(int)",
     9: "xmasked_value lifted functions on Traced<double>", 10: "xmasked_value fma on double, Traced<double>",
     11: "xoptional mixed element types: operators/compound int<->double, % & | ^ int<->long long", 12: "xoptional mixed: binary functions int<->double; select int<->double",
+    21: "xoptional aliased operands (x op x): every binary operator, ==/!=, compound assignment on int, double, Traced<int>", 22: "xmasked_value aliased operands",
     13: "xoptional mixed: fma over all 6 non-uniform {int,double}^3", 14: "xmasked_value mixed operators", 15: "xmasked_value mixed binary functions", 16: "xmasked_value mixed fma",
 }
 
@@ -96,7 +97,7 @@ def run_config(ctx, std, cxx, cref, primary):
         # evidence keeps 12 samples: one per table part in an order that shows every family (mixed element types and
         # int flags first), preferring within a part the case that shows the family's point
         by_part = dict((p, s.samples) for p, s in zip(PARTS, res) if s is not None)
-        for p in [11, 13, 12, 2, 17, 5, 14, 18, 16, 1, 3, 10] + PARTS:
+        for p in [11, 21, 13, 12, 2, 17, 5, 14, 22, 18, 16, 1] + PARTS:
             ss = by_part.pop(p, None)
             if not ss:
                 continue
@@ -127,7 +128,10 @@ def run(ctx):
         + ("{P,V,R,C}, {P,V,R,I,J}" if th else "{P,V,R}, {P,V,R,I,J} for one- and two-operand forms, {P,V,R}, {P,I,J} for fma and select; I J only on the counting element types, select and value_or")
         + ") x element type(s) (same type: operators int, double, Traced<int>; functions double, Traced<double>, abs also int; % & | ^ ~ only on int / Traced<int>; "
         "mixed types in one call, bool-flag kinds P V R: int<->double in both orders for + - * / || && < <= > >= == != += -= *= /= and the 8 binary functions, all 6 non-uniform {int,double}^3 for fma, "
-        "select branches int/double and double/int, int<->long long in both orders for % & | ^ and their compound forms) = one overload instance; for every instance ALL flag vectors "
+        "select branches int/double and double/int, int<->long long in both orders for % & | ^ and their compound forms; "
+        "aliased operands, x op x, for every binary operator, ==/!= and compound assignment on int, double, Traced<int>: the same object on both sides (value closure; reference closure), "
+        "two reference closures over one value with the same flag object or with their own flags, reference + const-reference closure over one value and flag, value closure copied from a variable "
+        "with a reference closure of that variable in both orders) = one overload instance; for every instance ALL flag vectors "
         "(bool flags {false,true}; int flags {0,1,2}, so 2-vs-1 whose bitwise and is 0 occurs in every pair) x ALL value tuples over "
         "V(int)={0,1,-1,2,7,INT_MAX,INT_MIN}" + xi + ", V(double)={0,-0,1,-2.5,DBL_MAX,inf,NaN}" + xd + ", mixed-type calls: int {0,2,-3,7,INT_MAX}"
         + ("+{1,-1,INT_MIN}" if th else "") + ", double {0.5,2.5,-2.5,1e10,-0}" + ("+{3,1e300,inf,NaN}" if th else "") + ", long long {0,3,-5,2^40+1,-2^40}" + ("+{-1,255,2^62}" if th else "")
@@ -136,7 +140,7 @@ def run(ctx):
         "operation on the underlying builtin values with the usual arithmetic conversions (= their common type; NaN~NaN, signed zero distinguished); missing result => Traced call counter == 0 "
         "(not for unary operators; ==/!= judged by truth table only); compound: flag truthy iff both truthy, value updated only if still present (builtin a OP= b, i.e. converted back to the target type), "
         "otherwise target value unchanged, returns its target; ==: missing==missing, missing!=present/plain, != exact negation; select: missing iff condition missing else the chosen "
-        "branch (presence, and value converted exactly to the common type) unchanged; value_or; operands and their flags never modified; no ASan report. builtin-int cases whose evaluation would be "
+        "branch (presence, and value converted exactly to the common type) unchanged; value_or; operands and their flags never modified (aliased compound assignments: the shared value follows the target, a separate right-hand flag and a value-closure copy stay put); no ASan report. builtin-int cases whose evaluation would be "
         "undefined (x/0, x%0, INT_MIN/-1, overflow) with a missing operand run in a forked child: death by signal = violation. evaluations = executed cases over all builds; distinct_nontrivial = "
         "distinct cases (primary build only) in which at least one optional/masked operand is missing, i.e. the cases the presence logic decides")
     ctx.assumptions += [
